@@ -43,6 +43,10 @@ TECHNIQUE += '; count-field dataflow rule; accessor evaluation of the segmentati
 TECHNIQUE += '; writer-fragment / reader-routine evaluation on model output and input streams (Molekel, Molden, WFN, WFX orbital sections)'
 EXPLANATION += " Added after the clause-coverage audit: (R12) Molekel `$$` separators put each shell on its atom; (R13) WFX spin-type labels written for a set of orbitals are read back as the same kind and counts; (R14-R16) the [MO] / $COEFF / MOLECULAR ORBITAL sections of Molekel, Molden and WFN: the writer fragment is interpreted on a model object into a model output file and the reader routine on the resulting lines -- irreps, energies, occupations and coefficient columns of restricted and unrestricted sets come back in their own slots, and (Molden) a section header that follows the orbitals, directly or after an empty line, is still there for the section loop. R1's shape judgement was dropped: R9 (every use of the orbital coefficients evaluated on symbols) decides."
 # --- end metadata batch 7
+# --- metadata added for batch 8
+TECHNIQUE += '; writer blocks against reader blocks for the FCHK basis, the WFN primitive lists and the Molden [GTO] centres'
+EXPLANATION += " Added: (R17) the FCHK basis block of dump_one against the block of load_one that rebuilds the shells (s, SP, pure d, Cartesian f, p, pure g); (R18) the WFN centre / type / exponent lists against the format's TYPE ASSIGNMENTS numbering and the reader's build_obasis; (R19) the `[GTO]` part of the Molden writer against `_load_helper_obasis` on bases with atoms that carry no functions and shells not grouped by atom: the atom number heading a block attaches its shells. The guard matrix (R6) has rows for ghost centres and for shells listed out of atom order."
+# --- end metadata batch 8
 
 
 def module_closure(prog, root):
